@@ -92,10 +92,17 @@ func variantOf(sc Scenario) string {
 	return v + "Mmsg"
 }
 
+// watchMs: the Stop latency from which a run counts as "waited for the NAT timer": natTimeout/2, at most 4 s.
+// Stop latency is judged in the runs configured with a long NAT timeout (8-10 s, 60 s for ss2022); the eviction runs
+// need a 1-1.6 s timeout, where half of it is within scheduling noise of a loaded machine: they are not used to
+// judge Stop latency (floor 2 s, above their whole NAT timeout).
 func watchMs(sc Scenario) int64 {
 	w := int64(sc.NatMs) / 2
 	if w > 4000 {
 		w = 4000
+	}
+	if w < 2000 {
+		w = 2000
 	}
 	return w
 }
@@ -158,10 +165,6 @@ func oracle(o runOut) (fs []failure) {
 		}
 		if r.FAfterEvict > r.FRun+nc {
 			fs = append(fs, failure{"socket-leak:init-fail:" + sc.Upstream, fmt.Sprintf("%s: %d sockets idle, %d after failed initialisations", tag, r.FRun+nc, r.FAfterEvict)})
-		}
-	case "stop-idle", "stop-flood":
-		if sc.Echo && !r.FirstReply {
-			fs = append(fs, failure{"session-not-working", tag + ": no reply to the first packet"})
 		}
 	}
 	return
@@ -274,6 +277,9 @@ func (e *engine) evaluate(o runOut) error {
 	}
 	rep.Sample(map[string]any{"scenario": sc, "observed": strings.Join(ks, " "), "stop_ms": o.Res.StopMs, "started": o.Res.Started,
 		"goroutines": []int{o.Res.GBase, o.Res.GRun, o.Res.GEnd}, "sockets": []int{o.Res.FBase, o.Res.FRun, o.Res.FEnd}, "sent": o.Res.Sent})
+	if o.Crash == "" && o.Res.Err == "" && sc.Echo && !o.Res.FirstReply && sc.Kind != "evict" && sc.Kind != "stop-init" && sc.Kind != "init-fail" {
+		rep.Count("setup:no-first-reply")
+	}
 	if o.Crash == "" && o.Res.Err != "" {
 		rep.Note("harness: %s %s/%s: %s", sc.Kind, sc.Server, sc.Batch, o.Res.Err)
 		rep.Count("harness-error")
